@@ -67,18 +67,19 @@ template <class V, class C, class S> struct Live {
         for (C *c : cs) { r.act.push_back(c->active ? '1' : '0'); r.uns.push_back(c->unsatisfiable ? '1' : '0'); }
         return r;
     }
-    // keep calling solve() on the live solver until the positions stop changing (at most 30 calls);
+    // keep calling solve() on the live solver until positions *and* active set stop changing (a pass
+    // may exchange active constraints without moving anything), at most 60 calls;
     // returns true if any call changed a position. Diagnostic only: tells a premature stop of
     // solve() (further passes of the same algorithm still improve) from a wrong fixed point.
     template <class Unsat> bool solveToFixpoint(const Result &base, Result &out) {
         bool changed = false;
         Result prev = base;
-        for (int it = 0; it < 30; ++it) {
+        for (int it = 0; it < 60; ++it) {
             Result cur = solve<Unsat>();
-            bool same = cur.pos == prev.pos;
+            bool samePos = cur.pos == prev.pos, sameAct = cur.act == prev.act;
             prev = cur;
-            if (same) break;
-            changed = true;
+            if (!samePos) changed = true;
+            if (samePos && sameAct) break;
         }
         out = prev;
         return changed;
